@@ -80,7 +80,9 @@ class PyExc(Exception):
 
 _EXC_PARENTS = {"KeyError": ("KeyError", "LookupError", "Exception", "BaseException"),
                 "IndexError": ("IndexError", "LookupError", "Exception", "BaseException"),
-                "AttributeError": ("AttributeError", "Exception", "BaseException")}
+                "AttributeError": ("AttributeError", "Exception", "BaseException"),
+                "ValueError": ("ValueError", "Exception", "BaseException"),
+                "StopIteration": ("StopIteration", "Exception", "BaseException")}
 
 
 _STR_METHODS = ("join", "startswith", "endswith", "strip", "lstrip", "rstrip", "lower", "upper", "split", "find", "replace")
@@ -272,6 +274,28 @@ class Run:
                     if len(e.args) == 2:
                         return dflt
                     raise PyExc("KeyError")
+            if isinstance(e.func, ast.Attribute) and e.func.attr in ("index", "count", "remove", "insert", "clear", "copy", "reverse") and not e.keywords \
+                    and not any(isinstance(x, ast.Call) for x in ast.walk(e.func.value)):
+                try:
+                    base = self.ev(e.func.value)
+                except Unsupported:
+                    base = None
+                if isinstance(base, (list, tuple)):
+                    args = [self.ev(a) for a in e.args]
+                    m = e.func.attr
+                    try:
+                        if m in ("index", "count") and 1 <= len(args) <= 3:
+                            return getattr(base, m)(*args)
+                        if isinstance(base, list) and m == "remove" and len(args) == 1:
+                            return base.remove(args[0])
+                        if isinstance(base, list) and m == "insert" and len(args) == 2:
+                            return base.insert(args[0], args[1])
+                        if isinstance(base, list) and m in ("clear", "reverse") and not args:
+                            return getattr(base, m)()
+                        if m == "copy" and not args:
+                            return list(base)
+                    except ValueError:
+                        raise PyExc("ValueError")
             if isinstance(e.func, ast.Attribute) and e.func.attr in ("append", "extend") and len(e.args) == 1:
                 base = self.ev(e.func.value)
                 if isinstance(base, list):
